@@ -204,6 +204,10 @@ func verifVS(vs *types.VoteSet, n int) VerifVoteSet {
 func (cs *ConsensusState) VerifProject(maxRound int64) VerifRoundState {
 	cs.mtx.Lock()
 	defer cs.mtx.Unlock()
+	return cs.verifProjectNoLock(maxRound)
+}
+
+func (cs *ConsensusState) verifProjectNoLock(maxRound int64) VerifRoundState {
 	n := cs.Validators.Size()
 	p := VerifRoundState{
 		Height: cs.Height, Round: cs.Round, Step: int(cs.Step),
